@@ -221,8 +221,8 @@ def gen_project(rng, size=None, features=None, prob=None):
             st["inp"].append(path)
         if rng.random() < 0.25:
             st["out"].append(f"out/{sid}_b.txt")
-        if "vol" in feats and rng.random() < 0.15:
-            st["vol"] = [f"out/{sid}.log"]
+        if "vol" in feats and rng.random() < pr.get("vol", 0.15):
+            st["vol"] = [f"{rng.choice(['out', 'logs'])}/{sid}.log"]
         if "optional" in feats and rng.random() < pr["optional"]:
             st["need"] = "OPTIONAL"
         if "env" in feats and spec["env"] and rng.random() < 0.3:
